@@ -20,7 +20,7 @@ import (
 // A pattern that matches nothing is a contract error (exit 3, no VIOLATION line).
 
 var pseudoEvents = []string{"map.update", "map.delete", "map.next", "mem.store", "chan.send", "chan.recv", "chan.close",
-	"chan.select.recv", "chan.select.send", "return"}
+	"chan.select.recv", "chan.select.send", "return", "slice.append"}
 
 // ifaceNames: the named interface types of the repository's packages (filled by validatePatterns).
 var ifaceNames []string
